@@ -1746,6 +1746,15 @@ dt_dtcmp(struct dt_dt_s d1, struct dt_dt_s d2)
 		/* always equal */
 		return -2;
 	}
+	if (UNLIKELY(d1.typ == DT_SEXY || d1.typ == DT_SEXYTAI)) {
+		/* packed epoch values, there is no date/time sandwich */
+		if (d1.sexy < d2.sexy) {
+			return -1;
+		} else if (d1.sexy > d2.sexy) {
+			return 1;
+		}
+		return 0;
+	}
 	/* go through it hierarchically and without upmotes */
 	switch (d1.d.typ) {
 		int res;
